@@ -13,7 +13,8 @@ mkdir -p "$SC/sod/vshim" "$SC/harness" "$SC/bin"
 "$SC/bin/rw" /repo "$SC/sod" > "$OUT/rewrite.log"
 cp /repo/go.mod /repo/go.sum "$SC/sod/"
 cp $V/go/vshim/vshim.go "$SC/sod/vshim/"
+cp $V/go/export/zz_verif_export.go "$SC/sod/"
 cp -r $V/go/harness/. "$SC/harness/"
 cp /repo/go.sum "$SC/harness/"
-(cd "$SC/harness" && go build -o "$OUT/hz" .)
-if [ -n "$RACE" ]; then (cd "$SC/harness" && go build -race -o "$OUT/hz-race" .); fi
+(cd "$SC/harness" && go build -tags verif -o "$OUT/hz" .)
+if [ -n "$RACE" ]; then (cd "$SC/harness" && go build -tags verif -race -o "$OUT/hz-race" .); fi
